@@ -278,7 +278,7 @@ impl<C: Config, Q: Query> Snapshot<C, Q> {
                 .executor_registry
                 .get_executor_entry_by_type_id(&callee.stable_type_id());
 
-            let _ = entry
+            let repaired = entry
                 .repair_query_from_query_id(
                     engine,
                     &callee.compact_hash_128(),
@@ -296,6 +296,14 @@ impl<C: Config, Q: Query> Snapshot<C, Q> {
                     ),
                 )
                 .await;
+
+            // The callee is computing further up the stack (the edit created
+            // a cycle through this query) or this query has been marked as
+            // part of an SCC meanwhile: the callee has no settled value to
+            // compare with, and this query must take its cycle default.
+            if repaired.is_err() {
+                return CalleeCheckDecision::Recompute;
+            }
         }
 
         let mut repair_transitive_firewall_callees = false;
